@@ -24,7 +24,7 @@ func init() {
 	})
 	register(&Property{
 		ID: "C05",
-		Explanation: "Decides the guard clauses of the statement, not the cryptographic round trip: in (*crypto.Key).Open the AES-CTR keystream is applied, and a nil error returned, only on the true branch of poly1305Verify; the ciphertext is sliced only after the length >= Overhead() check; Seal reaches XORKeyStream only through k.Valid(), len(nonce)==ivSize and validNonce(nonce) and returns only after encrypting (rejections panic); KDF calls scrypt only after the salt-length and params.Check() guards; Extension == ivSize+macSize. Not decided: plaintext equality after a round trip and rejection of every bit flip (properties of AES-CTR/Poly1305 themselves).",
+		Explanation: "Decides the guard clauses of the statement, not the cryptographic round trip: in (*crypto.Key).Open the AES-CTR keystream is applied, and a nil error returned, only on the true branch of poly1305Verify; the ciphertext is sliced only after the length >= Overhead() check; Seal reaches XORKeyStream only through k.Valid(), len(nonce)==ivSize and validNonce(nonce) and returns only after encrypting (rejections panic); KDF calls scrypt only after the salt-length and params.Check() guards; Extension == ivSize+macSize; (key-validity) by specialised evaluation MACKey.Valid cannot return true with every byte of K zero, nor with every byte of R zero (with r == 0 the Poly1305 tag is independent of the message), EncryptionKey.Valid cannot return true for the zero key, Key.Valid requires both, and OpenKey succeeds only behind master.Valid() — added after a seeded change that merged the two MAC-key loops into an OR. Not decided: plaintext equality after a round trip and rejection of every bit flip (properties of AES-CTR/Poly1305 themselves).",
 		Assumptions: append([]string{"crypto/aes, crypto/cipher, poly1305 and scrypt implement their specifications"}, commonAssumptions...),
 		Technique:   "static analysis: CFG edge-cut reachability (must-pass-through) on go/ssa + constant evaluation",
 		Run: func(c *eng.Ctx) {
@@ -33,8 +33,13 @@ func init() {
 			ruleOpenGuards(c)
 			ruleKDFGuards(c)
 			ruleCryptoConsts(c)
+			ruleKeyValidity(c)
 		},
 		Controls: []Control{
+			{Name: "mac-key-valid-with-one-zero-half", File: "internal/repository/crypto/crypto.go",
+				Old: "	if !nonzeroK {\n		return false\n	}\n", New: "	if nonzeroK {\n		return true\n	}\n", Rule: "key-validity"},
+			{Name: "key-valid-ignores-mac-key", File: "internal/repository/crypto/crypto.go",
+				Old: "	return k.EncryptionKey.Valid() && k.MACKey.Valid()", New: "	return k.EncryptionKey.Valid() || k.MACKey.Valid()", Rule: "key-validity"},
 			{Name: "decrypt-before-verify", File: "internal/repository/crypto/crypto.go",
 				Old: "	if !poly1305Verify(ct, nonce, &k.MACKey, mac) {\n		return nil, ErrUnauthenticated\n	}\n", New: "	if !poly1305Verify(ct, nonce, &k.MACKey, mac) && len(dst) > 0 {\n		return nil, ErrUnauthenticated\n	}\n", Rule: "mac-before-decrypt"},
 			{Name: "seal-accepts-zero-nonce", File: "internal/repository/crypto/crypto.go",
